@@ -200,3 +200,87 @@ Section Trace.
     now rewrite app_nth2, Nat.sub_diag by lia.
   Qed.
 End Trace.
+
+(** * Help short-circuits every callback, over the whole tree
+    For every tree in which no sub-command is itself named "-h" or "--help", every argument vector whose first help
+    token is preceded by no "--" runs no Before, no Action and no After — whichever command the token addresses,
+    whatever precedes and follows it, valid or not. *)
+Section HelpTrace.
+  Variable parse_float : str -> option str.
+  Variable getenv : str -> str.
+
+  Fixpoint help_free (c : cmd) : bool :=
+    match c with
+    | Cmd _ _ _ _ _ _ _ _ _ _ subs =>
+      forallb (fun s => negb (is_alias s s_h) && negb (is_alias s s_help) && help_free s) subs
+    end.
+
+  Lemma help_index_skipn args : forall n hi, help_index args = Some hi -> n <= hi ->
+    help_index (skipn n args) = Some (hi - n).
+  Proof.
+    induction args as [|a args IH]; intros n hi; cbn [help_index]; [discriminate|].
+    destruct n as [|n]; [intros H _; cbn [skipn help_index]; now rewrite Nat.sub_0_r|].
+    destruct (str_eqb a s_dd); [discriminate|]. destruct (str_eqb a s_h || str_eqb a s_help).
+    - intros [= <-] Hle. lia.
+    - destruct (help_index args) as [j|] eqn:Ej; [|discriminate]. intros [= <-] Hle. cbn [skipn].
+      rewrite (IH n j eq_refl) by lia. f_equal.
+  Qed.
+
+  Lemma help_index_head a rest : help_index (a :: rest) = Some 0 -> (str_eqb a s_h || str_eqb a s_help) = true.
+  Proof.
+    cbn [help_index]. destruct (str_eqb a s_dd); [discriminate|]. destruct (str_eqb a s_h || str_eqb a s_help); [reflexivity|].
+    destruct (help_index rest); discriminate.
+  Qed.
+
+  Lemma is_alias_help_eq s a : (str_eqb a s_h || str_eqb a s_help) = true ->
+    negb (is_alias s s_h) && negb (is_alias s s_help) = true -> is_alias s a = false.
+  Proof.
+    intros Ha Hs. apply andb_true_iff in Hs as [H1 H2]. apply negb_true_iff in H1, H2.
+    apply orb_true_iff in Ha as [E|E]; apply str_eqb_eq in E; subst a; assumption.
+  Qed.
+
+  Theorem parse_cmd_help_runs_nothing c : forall i policy path args levels paths filled err,
+    help_free c = true -> help_index args <> None ->
+    r_trace (parse_cmd parse_float getenv c i policy path args levels paths filled err) = [].
+  Proof.
+    induction c as [n d ld h sp pol ds b act af subs IHsubs] using cmd_rect'.
+    intros i policy path args levels paths filled err Hfree Hh.
+    cbn [parse_cmd c_subs c_before c_after c_action]. cbn [help_free] in Hfree.
+    destruct (help_index args) as [hi|] eqn:Ehi; [|congruence].
+    destruct (hi <? opts_and_args subs args) eqn:Hlt.
+    - destruct (print_help parse_float getenv path _ i true) as [text r]. reflexivity.
+    - apply Nat.ltb_ge in Hlt.
+      pose proof (help_index_skipn args (opts_and_args subs args) hi Ehi Hlt) as Hsk.
+      destruct (skipn (opts_and_args subs args) args) as [|arg rest] eqn:Es; [reflexivity|].
+      (* the token at the split names a sub-command, so it is not the help token: the help token is further right *)
+      assert (Hrest : help_index rest <> None).
+      { destruct (hi - opts_and_args subs args) as [|k] eqn:Ek.
+        - exfalso. apply help_index_head in Hsk.
+          pose proof (split_names_sub subs args) as Hn. rewrite Es in Hn. destruct Hn as (sub & Hf).
+          unfold find_sub in Hf. apply find_some in Hf as [Hin Hal].
+          rewrite forallb_forall in Hfree. specialize (Hfree sub Hin). apply andb_true_iff in Hfree as [Hna _].
+          rewrite (is_alias_help_eq sub arg Hsk Hna) in Hal. discriminate.
+        - pose proof (help_index_skipn (arg :: rest) 1 (S k) Hsk ltac:(lia)) as H1. cbn [skipn] in H1. congruence. }
+      (* the descent *)
+      clear Hsk Es Ehi Hh Hlt.
+      induction subs as [|s subs' IHs]; cbn [first_some]; [reflexivity|].
+      inversion IHsubs as [|? ? Hps Hrest']; subst.
+      cbn [forallb] in Hfree. apply andb_true_iff in Hfree as [Hs Hfree'].
+      destruct (is_alias s arg).
+      + destruct (do_init parse_float getenv (c_decls s) (c_spec s)) as [si| | |]; try reflexivity.
+        apply Hps; [|exact Hrest]. apply andb_true_iff in Hs as [_ Hs]. exact Hs.
+      + apply IHs; assumption.
+  Qed.
+
+  Theorem run_help_runs_nothing a argv :
+    help_free (a_root a) = true -> help_index argv <> None ->
+    r_trace (run parse_float getenv a argv) = [].
+  Proof.
+    intros Hfree Hh. unfold run.
+    destruct (do_init parse_float getenv (root_decls a) (c_spec (a_root a))) as [i| | |]; try reflexivity.
+    destruct (a_version a) as [[nm text]|].
+    - destruct (match argv with [] => false | a0 :: _ => mem_str a0 (mk_opt_strs nm) end); [reflexivity|].
+      now apply parse_cmd_help_runs_nothing.
+    - now apply parse_cmd_help_runs_nothing.
+  Qed.
+End HelpTrace.
